@@ -37,7 +37,7 @@ class Workload:
     close on several subchannels, in both directions."""
 
     def __init__(self, w, tape, max_subs=3, max_ops=12, names=("p1", "p2"),
-                 big=True, listen_late=False, pausing=False):
+                 big=True, listen_late=False, pausing=False, producers=False):
         self.w = w
         self.tape = tape
         if w.opts.get("_tier") == "thorough" and names:
@@ -69,6 +69,11 @@ class Workload:
                     ops.append(("close", tape.choose(max(1, nsub), "ch")))
                 else:
                     ops.append(("aclose", tape.choose(3, "ach")))
+                if producers and tape.choose(4, "prd") == 0:
+                    # the application registers a producer on one of its
+                    # subchannels; told to pause, it writes a last
+                    # "checkpoint" record from inside pauseProducing()
+                    ops.append(("producer", tape.choose(max(1, nsub), "prh")))
                 if pausing and tape.choose(3, "pz") == 0:
                     # slow applications: stop the flow on a subchannel for a
                     # while (resumed later, at the latest when faults stop)
@@ -98,7 +103,7 @@ class Workload:
         kind = op[0]
         if kind in ("listen", "open"):
             return True
-        if kind in ("write", "close", "pause", "resume"):
+        if kind in ("write", "close", "pause", "resume", "producer"):
             h = self.handles[side.name]
             if not h:
                 return True      # nothing was opened: the op is a no-op
@@ -112,7 +117,7 @@ class Workload:
             side.listen(op[1])
         elif kind == "open":
             self.handles[side.name].append(side.connect(op[1]))
-        elif kind in ("write", "close", "pause", "resume"):
+        elif kind in ("write", "close", "pause", "resume", "producer"):
             h = self.handles[side.name]
             if not h:
                 return
@@ -146,14 +151,28 @@ class Workload:
                 if not p.lost:
                     p.transport.resumeProducing()
             return
+        if kind == "producer":
+            if p.lost or p.closed_local or getattr(p, "has_producer", False):
+                return
+            p.has_producer = True
+            self.w.sim.note("probe.checkpointing_producer")
+            try:
+                p.transport.registerProducer(_Checkpointer(self, p), True)
+            except Exception:
+                p.has_producer = False
+            return
         if kind == "write":
+            # (the application issued this write now: anything it writes from
+            # callbacks that run inside the call comes after it)
+            p.writes.append(op[2])
+            idx = len(p.writes) - 1
             try:
                 p.transport.write(op[2])
                 if p.closed_local or p.lost:
+                    del p.writes[idx]
                     p.write_errors.append(("no-error", len(op[2])))
-                else:
-                    p.writes.append(op[2])
             except Exception as e:
+                del p.writes[idx]
                 if p.closed_local or p.lost:
                     p.write_errors.append((type(e).__name__, len(op[2])))
                 else:
@@ -182,6 +201,38 @@ class Workload:
         self.pc[side.name] += 1
         self.issued.append((side.name, op[0]))
         self._run(side, op)
+
+
+class _Checkpointer:
+    """A push producer that, told to pause, writes one more record (a
+    checkpoint) from inside pauseProducing()."""
+
+    def __init__(self, wl, p):
+        from zope.interface import directlyProvides
+        from twisted.internet.interfaces import IPushProducer
+        directlyProvides(self, IPushProducer)
+        self.wl, self.p = wl, p
+        self.budget = 2
+
+    def pauseProducing(self):
+        p = self.p
+        if self.budget <= 0 or p.lost or p.closed_local:
+            return
+        self.budget -= 1
+        data = b"checkpoint-%d" % self.budget
+        p.writes.append(data)
+        idx = len(p.writes) - 1
+        self.wl.w.sim.note("probe.write_from_pauseProducing")
+        try:
+            p.transport.write(data)
+        except Exception:
+            del p.writes[idx]
+
+    def resumeProducing(self):
+        pass
+
+    def stopProducing(self):
+        pass
 
 
 def install_greeter(w, tape):
